@@ -52,11 +52,17 @@ class Chain(PipeScenario):
     def make_producers(self):
         p = self.params
         n = p["n"]
+        md = None
+        if p.get("refs"):
+            # elements carry checkpoint metadata: _emit then takes its deferred-release path
+            from streamz import RefCounter
+            loop = self.ioloop
+            md = lambda x, i: [{"ref": RefCounter(loop=loop)}]     # noqa: E731
         if p.get("nprod", 1) == 1:
-            self.add_producer("p", self.src, list(range(1, n + 1)), mode=p["mode"])
+            self.add_producer("p", self.src, list(range(1, n + 1)), mode=p["mode"], metadata=md)
         else:
-            self.add_producer("p", self.src, list(range(1, n + 1)), mode=p["mode"])
-            self.add_producer("q", self.src, [101, 102][: max(1, n - 1)], mode=p["mode"])
+            self.add_producer("p", self.src, list(range(1, n + 1)), mode=p["mode"], metadata=md)
+            self.add_producer("q", self.src, [101, 102][: max(1, n - 1)], mode=p["mode"], metadata=md)
 
     # (a) evaluated at the moment the emit completes
     def on_emit_done(self, producer, idx, x):
@@ -210,9 +216,9 @@ def factory(key):
     if key[0] == "zip3":
         _, maxsize, kind, mode, ca, cb, cc = key
         return lambda: Zip3(join="zip:%d" % maxsize, kind=kind, mode=mode, counts=(ca, cb, cc))
-    if key[0] == "chain":
+    if key[0] in ("chain", "chainref"):
         _, nodes, kind, mode, n, nprod = key
-        return lambda: Chain(nodes=tuple(s for s in nodes.split(",") if s), kind=kind, mode=mode, n=n, nprod=nprod)
+        return lambda: Chain(nodes=tuple(s for s in nodes.split(",") if s), kind=kind, mode=mode, n=n, nprod=nprod, refs=key[0] == "chainref")
     _, maxsize, kind, mode, na, nb = key
     return lambda: Zip(join="zip:%d" % maxsize, left="", right="", kind=kind, mode=mode, n=na, nb=nb)
 
@@ -245,6 +251,9 @@ def plan(ctx):
     jobs.append((("zip3", 1, "native", "await", 2, 2, 2), 1))
     if T:
         jobs.append((("zip3", 2, "future", "burst", 4, 3, 2), 0))
+    for nd in ("", "map", "buffer:1", "buffer:2", "sliding_window:2", "map_async:1", "rate_limit:1"):
+        jobs.append((("chainref", nd, "future", "await", 3, 1), 1 if nd not in ("rate_limit:1",) else 0))
+        jobs.append((("chainref", nd, "native", "await", 2, 2), 1 if nd not in ("rate_limit:1", "map_async:1") else 0))
     for nd in ("delay:1", "rate_limit:1", "timed_window:1", "partition:2:1"):
         jobs.append((("chain", nd, "future", "await", 3, 1), 1 if T else 0))
     return jobs
